@@ -184,6 +184,10 @@ pub fn write_default_w<T: lexical_core::ToLexical + Copy>(arena: &mut Arena, v: 
 }
 fn finish_w(arena: &mut Arena, r: Result<(usize, Vec<u8>), String>, start: usize, len: usize, place: Place) -> W {
     let zone_ok = arena.zone_intact(len, place, WTAG);
+    if !zone_ok {
+        // report at once: an out-of-slice write may have corrupted the process, which may not live to write its report
+        crate::guard::report_now("CANARY-DAMAGED");
+    }
     match r {
         Ok((p, bytes)) => {
             let buf = arena.slice_again(len, place);
